@@ -17,7 +17,7 @@ L = env.lib()
 ID = "C17"
 LEVEL = "exploration"
 RULE = ("Hypothesis-generated (key, token list): keys are (a) fresh keygen() pairs on fresh paths or written over the previous pair at one reused path, under file names with dots/spaces (optionally next to a different key pair named without the last extension), with extra signer objects created and discarded before signing, and (b) seeded 2048-bit keys built from a drawn seed (deterministic Miller-Rabin prime search, "
-        "PKCS#8 PEM written to disk, write_public_keyfile), also with public exponent 3 and 65537; tokens: all-zero, all-0xFF, drawn 20-byte strings. Oracle: .pub == base64(524-byte blob) + ' user@host'; "
+        "PKCS#8 PEM written to disk, write_public_keyfile), also with public exponent 3 and 65537; tokens: all-zero, all-0xFF, drawn 20-byte strings. the login name and host name keygen sees are drawn per case (none/empty/a name; os.getlogin raising as in a daemon). Oracle: .pub == base64(524-byte blob) + ' user@host' naming that login and host whenever they exist; "
         "blob: 64 words, n*n0inv == -1 mod 2^32, little-endian modulus == n, rr == 2^4096 mod n, exponent == e (all recomputed with Python integers); for each of the three signer classes loaded from the "
         "files, Sign(token) == the unique RSASSA-PKCS1-v1_5 signature of the token taken as a SHA-1 digest (pow(EM,d,n), own EMSA encoding) and cryptography's verify(..., Prehashed(SHA1)) accepts it. "
         "Non-trivial: every (key, token) with a drawn token. Distinct = (key fingerprint, token).")
@@ -95,10 +95,51 @@ def cases():
         "name": st.sampled_from(["adbkey", "adbkey", "adbkey.new", "192.168.1.5", "key.v2.pem", "my key"]),      # key file names (dots and spaces are ordinary characters)
         "decoy": st.booleans(),           # another, different key pair sits next to it under the name without the last extension
         "drop_temp_signers": st.booleans(),   # a second signer object of each class is created and discarded before signing
+        # the environment the comment is taken from: login name (None = whatever this process has; a daemon has none: os.getlogin() raises) and host name
+        "login": st.sampled_from([None, None, "raise-oserror", "raise-fnf", "", "alice"]),
+        "host": st.sampled_from([None, None, "", "vm", "build-7.example.org"]),
     })
 
 
+class _Env(object):
+    """Rebinds os.getlogin / socket.gethostname (as seen by keygen) for one case."""
+
+    def __init__(self, case):
+        self.login, self.host = case.get("login"), case.get("host")
+
+    def __enter__(self):
+        import socket
+        self.saved = (os.getlogin, socket.gethostname)
+        login, host = self.login, self.host
+        if login is not None:
+            def getlogin():
+                if login == "raise-oserror":
+                    raise OSError(25, "Inappropriate ioctl for device")
+                if login == "raise-fnf":
+                    raise FileNotFoundError(2, "No such file or directory")
+                return login
+            os.getlogin = getlogin
+        if host is not None:
+            socket.gethostname = lambda: host
+        # what the comment has to name (None = no name available: any non-empty placeholder will do)
+        try:
+            self.want_user = os.getlogin() or None
+        except OSError:
+            self.want_user = None
+        self.want_host = socket.gethostname() or None
+        return self
+
+    def __exit__(self, *a):
+        import socket
+        os.getlogin, socket.gethostname = self.saved
+
+
 def check_case(case):
+    with _Env(case) as e:
+        return _check_case(case, e)
+
+
+def _check_case(case, environ):
     from adb_shell.auth import keygen as kg
     from adb_shell.auth.sign_pythonrsa import PythonRSASigner
     from adb_shell.auth.sign_cryptography import CryptographySigner
@@ -148,6 +189,9 @@ def check_case(case):
         b64, sep, comment = pub.partition(b" ")
         if not sep or not re.match(rb"^[^@\s]+@\S+$", comment):
             return fail("pub-comment", "public key file does not end in ' user@host': %r" % pub[-40:])
+        user, _, host = comment.partition(b"@")
+        if (environ.want_user is not None and user != environ.want_user.encode()) or (environ.want_host is not None and host != environ.want_host.encode()):
+            return fail("pub-comment", "comment %r does not name the login %r / host %r of this environment" % (comment, environ.want_user, environ.want_host))
         try:
             blob = base64.b64decode(b64, validate=True)
         except Exception as ex:  # noqa
